@@ -8,7 +8,7 @@ import sys
 
 import pjrpc
 from pjrpc.common import exceptions
-from pjrpc.server import AsyncDispatcher
+from pjrpc.server import AsyncDispatcher, ViewMixin
 
 logging.disable(logging.CRITICAL)
 
@@ -51,6 +51,19 @@ async def run_async(scn):
         await gates(tag, elems[tag - 1]['meth'])
         raise exceptions.JsonRpcError(code=1001, message='failed too', data=tag)
 
+    class V(ViewMixin):
+        """class based view: per-request state lives on the instance across suspension points"""
+
+        def __init__(self, context=None):
+            super().__init__()
+            self.context = context
+
+        async def view(self, tag):
+            self.current = tag
+            ev.append({'ev': 'Exec', 'tag': tag})
+            await gates(tag, elems[tag - 1]['meth'])
+            return self.current
+
     def plain(tag):
         ev.append({'ev': 'Exec', 'tag': tag})
         return tag
@@ -76,6 +89,7 @@ async def run_async(scn):
 
     d = AsyncDispatcher(middlewares=[probe], error_handlers={None: [eh], 1000: [eh2]}, concurrent_batch=scn['concurrent'])
     d.add(fail2, 'fail2')
+    d.registry.view(V, context='context')
     d.add(ok, 'ok')
     d.add(fail, 'fail')
     d.add(plain, 'plain')
@@ -85,7 +99,7 @@ async def run_async(scn):
         if not e['notif']:
             r['id'] = i
         batch.append(r)
-    task = asyncio.ensure_future(d.dispatch(json.dumps(batch), context=None))
+    task = asyncio.ensure_future(d.dispatch(json.dumps(batch), context={'request': 'shared by the whole batch'}))
     await quiesce()
     for tag in scn['sched']:
         fut = pending.pop(tag, None)
